@@ -100,7 +100,11 @@ pub fn rtxin(rng: &mut ChaCha20Rng, f: Feat, tags: &mut Vec<String>) -> TxIn {
     i.script_sig = rscript(rng, f.big);
     i.sequence = Sequence(pk!(rng, [0u32, 1, 0xffff_fffe, 0xffff_ffff, rng.gen()]));
     match kind {
-        0 => { i.previous_output = OutPoint::null(); tags.push("in:coinbase".into()); }
+        0 => {
+            // the coinbase index 0xffffffff: with the null txid (a real coinbase) or with an arbitrary txid (still no flags)
+            if rng.gen_range(0..2) == 0 { i.previous_output = OutPoint::null(); tags.push("in:coinbase".into()); }
+            else { i.previous_output.vout = 0xffff_ffff; tags.push("in:allones-index".into()); }
+        }
         1 | 2 => { tags.push("in:plain".into()); }
         3 => { i.is_pegin = true; tags.push("in:pegin".into()); }
         _ => {
